@@ -104,13 +104,13 @@ def pt(u):
     return 10.0 * u - 5.0
 
 
-def hooked_run(run, cfg, seed, what, resume_from=None, n_total=60, outdir=None):
+def hooked_run(run, cfg, seed, what, resume_from=None, n_total=60, outdir=None, like=None, n_particles=24):
     """run with hooks: record labels seen by the trainer and the statistics/assignments entering the kernel."""
     from tempest import Sampler
     import tempest.steps.mutate as mut
     from tempest.modes import ModeStatistics
     np.random.seed(seed)
-    s = Sampler(pt, bimodal, n_dim=2, n_particles=24, clustering=True, random_state=seed,
+    s = Sampler(pt, like or bimodal, n_dim=2, n_particles=n_particles, clustering=True, random_state=seed,
                 output_dir=str(outdir) if outdir else None, output_label="c14", **cfg)
     rec = dict(train_labels=None, K_fit=None)
     orig_fp = ModeStatistics.from_particles.__func__
@@ -167,6 +167,89 @@ def hooked_run(run, cfg, seed, what, resume_from=None, n_total=60, outdir=None):
         mut.parallel_mcmc = orig_pm
         ModeStatistics.from_particles = classmethod(orig_fp)
     return s, problems
+
+
+def sharp_bimodal(x):
+    # two very narrow modes: the first positive temperature of the schedule is its search resolution 2^-14 (< 1e-4), at which the
+    # tempered target already has two visible modes
+    a = -0.5 * float(np.sum((x - 2.0) ** 2)) / 0.005 ** 2
+    b = -0.5 * float(np.sum((x + 2.0) ** 2)) / 0.005 ** 2
+    return float(np.logaddexp(a, b))
+
+
+def tiny_beta_steps(run, tier, rng):
+    """Trainer.run + Resampler.run at small positive temperatures (2^-14 is the schedule's search resolution): an annealing
+    iteration for every step - the labels handed on are the clusters of the resampled particles."""
+    from tempest.state_manager import StateManager
+    from tempest.steps.train import Trainer
+    from tempest.steps.resample import Resampler
+    from tempest.cluster import HierarchicalGaussianMixture
+    from tempest.config import TRIM_ESS, TRIM_BINS, DOF_FALLBACK
+    done = 0
+    tries = 0
+    while done < (2 if tier == "quick" else 12) and tries < 60:
+        tries += 1
+        lseed = rng.randrange(2 ** 31)
+        nr = np.random.RandomState(lseed)
+        centres = nr.rand(2, 2) * 0.7 + 0.15
+        u = np.clip(np.vstack([c + 0.025 * nr.randn(60, 2) for c in centres]), 0.001, 0.999)
+        n = len(u)
+        for beta in (2.0 ** -14, 5e-5, 9.9e-5, 1e-3):
+            st = StateManager(2)
+            st.update_current({"u": u, "x": u.copy(), "logl": np.zeros(n), "beta": 0.0, "logz": 0.0, "iter": 1})
+            st.commit_current_to_history()
+            st.set_current("beta", float(beta))
+            st.set_current("iter", 2)
+            cl = HierarchicalGaussianMixture(n_init=1, max_iterations=1000, min_points=None, threshold_modifier=1.0,
+                                             covariance_type="full", verbose=False, normalize=bool(tries % 2))
+            tr = Trainer(state=st, clusterer=cl, cluster_every=1, clustering=True, TRIM_ESS=TRIM_ESS, TRIM_BINS=TRIM_BINS, DOF_FALLBACK=DOF_FALLBACK)
+            rs = Resampler(state=st, n_particles=32, resample="syst", clusterer=cl, clustering=True)
+            np.random.seed(lseed % 1000)
+            what = dict(probe="steps at a small positive beta", beta=float(beta), layout_seed=lseed, normalize=bool(tries % 2))
+            try:
+                ms = tr.run(np.ones(n) / n)
+                rs.run(np.ones(n) / n)
+            except Exception as e:
+                run.fail("train-resample-raises", f"Trainer/Resampler raised {type(e).__name__}: {e}", **what)
+                continue
+            if ms.K < 2:
+                break
+            asg = np.asarray(st.get_current("assignments"))
+            own = np.asarray(cl.predict(np.asarray(st.get_current("u"))))
+            run.case(key=("tiny-beta-steps", lseed, beta), nontrivial=True)
+            if asg.shape != own.shape:
+                run.fail("label-of-another-cluster", f"beta={beta!r}: {len(asg)} labels for {len(own)} current particles - the pool was not "
+                         f"resampled although this is an annealing iteration (labels {sorted(set(asg.tolist()))}, K={ms.K})", **what)
+            elif asg.max() >= ms.K or np.any(asg != own):
+                run.fail("label-of-another-cluster", f"beta={beta!r}: {int(np.sum(asg != own))} of {len(asg)} active particles carry a label that is not the "
+                         f"cluster of their position (labels {sorted(set(asg.tolist()))}, K={ms.K})", **what)
+        else:
+            done += 1
+
+
+def tiny_beta_probe(run, tier, rng):
+    """kernel-entry checks at the smallest positive temperature: every step must treat it as an annealing iteration"""
+    for rep in range(1 if tier == "quick" else 4):
+        seed = rng.randrange(10 ** 6)
+        cfg = dict(cluster_every=1, normalize=True)
+        what = dict(probe="sharp bimodal likelihood (first positive beta = 2^-14)", cfg=cfg, random_state=seed)
+        try:
+            s, problems = hooked_run(run, dict(cfg), seed, what, like=sharp_bimodal, n_particles=64, n_total=64)
+        except Exception as e:
+            import traceback
+            tb = traceback.format_exc()
+            if type(e).__name__ == "LinAlgError" and "fit_mvstud" in tb and "from_particles" in tb:
+                run.fail("single-point-cluster-singular-scale", f"a real run aborted in ModeStatistics.from_particles: {type(e).__name__}: {e}", **what)
+            else:
+                run.fail("clustered-run-raises", f"run raised {type(e).__name__}: {e}", **what)
+            continue
+        betas = [float(b) for b in s.state.get_history("beta")]
+        pos = [b for b in betas if b > 0]
+        run.count("tiny-beta probe: first positive beta below 1e-4" if pos and pos[0] < 1e-4 else "tiny-beta probe: first positive beta >= 1e-4")
+        for p in problems[:2]:
+            key = "assignment-without-mode" if "refers to no mode" in p else ("label-rank-mismatch" if "indexed by rank" in p else
+                                                                              ("label-of-another-cluster" if "not the cluster" in p else "mode-ill-formed"))
+            run.fail(key, p, **what)
 
 
 def sweep(run, tier, rng, work):
@@ -372,15 +455,19 @@ def main(tier, seed):
     rng = random.Random(seed)
     try:
         translate()
+        import c05
+        c05.translate()   # which iterations are warm-up iterations is decided identically in train / resample / mutate
         run.obligation("translate:Trainer cadence + mode indexing", True)
     except Exception as e:  # fail closed: anything the translator cannot digest
         run.obligation("translate:Trainer cadence + mode indexing", False, str(e))
-    run.prove("Props/C14.v", link_rels=["Link/Cluster.v"])
+    run.prove("Props/C14.v", link_rels=["Link/Cluster.v", "Link/Schedule.v"])
     work = Path(tempfile.mkdtemp(prefix="c14_", dir=run.scratch.dir))
     try:
         sweep(run, tier, rng, work)
         starved_pools(run, tier, rng)
         reused_clustering(run, tier, rng)
+        tiny_beta_probe(run, tier, rng)
+        tiny_beta_steps(run, tier, rng)
     except Exception:
         import traceback
         run.broken.append(("harness-exception", traceback.format_exc()[-1500:]))
